@@ -85,7 +85,10 @@ CLAIMED = {
         "selects an entry carrying it or the descriptive ambiguity error, every device has the default sizes the code looks up, device ports are "
         "the primitive's ports except for recorded devices, for which the negation is proved; (registry) default / by name / by module. Tied to "
         "the code by exhaustive compilation of every table entry x reaching primitive x sizes and of all 72 triples per PDK, generated hierarchies "
-        "x 4 PDKs x once/twice, registry op sequences in fresh interpreters, and the logic-cell libraries instantiated and netlisted.",
+        "x 4 PDKs x once/twice, registry op sequences in fresh interpreters, and the logic-cell libraries instantiated and netlisted. "
+        "device_calls_are_history_free (Memo.lean: the PDK packages' per-parameter tables of device calls): from the empty or any coherent table every request of every history is "
+        "answered as a fresh process answers it, a refused request files nothing — observed on the real tables by the alone_vs_among, before (a by-triple request after every device of "
+        "that triple was asked for by name) and repair (a failed compile mended and run again) streams.",
         note="66 known findings (known_findings.json): a primitive whose port list differs from the selected device's (2- vs 3-terminal resistors / "
         "capacitors, the 5-terminal Sky130 Mos, 4-terminal bipolars) compiles into an instance with an unconnected or dangling port. Parameter "
         "translation beyond sizes-given-or-default is checked by correspondence only. The device map of the hierarchy stream is read off the "
@@ -187,7 +190,8 @@ CLAIMED = {
         "put together from the models each pass has): module_connections_preserved — whenever the composition returns a module it declares the module's signals, has the designer's "
         "instances in order with their targets and parameters, and on every port of every instance the netlisters read, bit i for bit i, the signal bits the designer's expression denotes "
         "(any nesting, step, sign), with no hypothesis about intermediate states; the composition itself is compared with elaborate + to_proto by the module_pipe stream (random F1 modules "
-        "with planted faults: accepted vs refused, signal and port lists, instances, the bits read per connection).",
+        "with planted faults: accepted vs refused, signal and port lists, instances, the bits read per connection); design_connections_preserved — the same for every module of an F1 design put through pipelineDesign "
+        "(children first, each module against what the package holds so far), compared module by module with the real package by the design_pipe stream.",
         note="Sem.src / Sem.pkg / the net solver are specifications executed by the driver (Design.lean, Pkg.lean, Nets.lean); the "
         "pass-by-pass preservation theorems for F3 (bundles, pairs, hierarchy) are not proved. vlsirtools' positional reading is modelled and validated "
         "against the netlist text on every design. Designs the unchanged code rejects although well-formed are listed in "
@@ -213,7 +217,9 @@ CLAIMED = {
         "acceptance by from_proto and the spice and spectre netlisters. "
         "The passes composed (ModulePipe.lean): elaborated_module_is_EWF — what Orphanage, ConnTypes, SliceResolver and the two repeats leave of a module of fragment F1 whose namespace is a "
         "namespace (ModOK) is EWF as soon as the exporter exports its connections, with no hypothesis about intermediate states — and module_pipeline_wf — whatever the composed pass list "
-        "plus export_module return has none of the module-level defects C06 lists, in whatever package it ends up; the composition is compared with elaborate + to_proto by the module_pipe stream.",
+        "plus export_module return has none of the module-level defects C06 lists, in whatever package it ends up; the composition is compared with elaborate + to_proto by the module_pipe stream. "
+        "design_pipeline_wf: for a whole F1 design put through pipelineDesign, problemsFrom of the package is empty (every instance resolved to a module exported before it, a declared external module or a primitive of the regenerated table). "
+        "External-module declarations (ExtDecl.lean, the model of export_external_module): declarations_consistent — one declaration per qualified name, each object declared exactly as given, widths included; conflicting_declarations_refused; compared with the exporter by the ext_decls stream.",
         note="checked_instance_is_instOK + orphanage_gives_sigsOK: an instance that passed ConnTypes and Orphanage and whose connections are resolved satisfies the instance part of EWF "
         "(hypothesis: what a module parents is what it declares — C18's coherence). The module-level parts of EWF (names, widths, directions) are evaluated on every explored design, not proved; module-name uniqueness and external-module declarations rest on the executed predicate. Primitive port table regenerated from /repo each run.",
         ref="DESIGN.md §6 C06",
@@ -239,7 +245,7 @@ CLAIMED = {
         "target, an open port, a connection to a port that does not exist, a connection of another width or without a width (an index out of range, an empty or zero-step slice at any depth), "
         "a signal the module does not declare: each, planted anywhere, makes the composition refuse; compared with elaborate + to_proto by the module_pipe stream (planted faults of each class). "
         "Edits made after a completed export (reconnect to another width, widen a child's port, disconnect) are exported as they are: three recorded known findings (known_findings.json, "
-        "after-export:*), the root cause of the C08 repair-and-retry entries.",
+        "after-export:*), the root cause of the C08 repair-and-retry entries. design_accepts_only_wellformed: across the hierarchy, a package comes back only if every instance of every module is well-formed against what its target was exported as.",
         note="Of the checking passes MarkModules is not modelled in Lean (ConnTypes, Orphanage and ResolvePortRefs' refusals are); that the modelled checks together cover every "
         "fault class rests on the mutation correspondence. Clashing module names are an export-level fault: elaborate() alone is not required to notice them.",
         ref="DESIGN.md §6 C02",
